@@ -606,6 +606,9 @@ class FileSystemProvider(Provider):                     # pylint: disable=too-ma
                 raise ex.CloudFileNotFoundError(parent)
             if not os.path.isdir(parent):
                 raise ex.CloudFileExistsError(fpath)
+            if self.is_subpath(path_from, fpath, strict=True):
+                # a folder cannot be moved below itself (os.rename would raise a bare OSError)
+                raise ex.CloudFileExistsError(fpath)
             if not self.paths_match(path_from, fpath, for_display=True):
                 from_dir = os.path.isdir(path_from)
                 to_dir = os.path.isdir(fpath)
